@@ -639,6 +639,46 @@ def gen_structured(rng):
     return out, {f"shape:batch{min(n, 3)}{'+' if n > 3 else ''}": 1}
 
 
+METHOD_NAMES = ["pub", "count", "nargs", "te", "oth", "uns", "te_bad", "oth_bad", "helper", "count", "nargs"]
+
+
+def callable_paths(tbl_idx):
+    out = []
+    for mount, kind in TABLE_SPECS[tbl_idx].items():
+        if kind == "fn":
+            out.append(mount)
+        elif kind == "rec":
+            out += [f"{mount}.{m}" for m in METHOD_NAMES]
+    return out
+
+
+def gen_valid_calls(rng):
+    """Directed stream: conforming requests naming callable methods (single, or a batch mixing
+    requests and notifications), so that results / -32602 / application errors and the
+    history-dependent oracle (count) are exercised as often as the rejections."""
+    tbl_idx = rng.choice([0, 0, 1, 3])
+    paths = callable_paths(tbl_idx)
+
+    def one():
+        req = {"jsonrpc": "2.0", "method": rng.choice(paths)}
+        kid, vid = gen_id(rng)
+        while kid in ("array", "object", "bool", "nonfinite"):
+            kid, vid = gen_id(rng)
+        if kid != "absent":
+            req["id"] = vid
+        k = rng.choice(["absent", "list", "dict"])
+        if k == "list":
+            req["params"] = [rng.choice([1, "x", None, [1], {"a": 1}, rng.choice(GOOD_MODELS)]) for _ in range(rng.randint(0, 3))]
+        elif k == "dict":
+            req["params"] = {rng.choice(["a", "b", "uri", "value"]): rng.choice([1, "x", None, rng.choice(GOOD_MODELS)])
+                             for _ in range(rng.randint(0, 2))}
+        return req
+
+    if rng.random() < 0.5:
+        return tbl_idx, one()
+    return tbl_idx, [one() for _ in range(rng.randint(1, 6))]
+
+
 def gen_bytes(rng):
     k = rng.weighted([("random", 2), ("mutated", 5), ("special", 2)])
     if k == "random":
@@ -711,6 +751,9 @@ def wrapper_stage(chk, jsonrpc):
         cases.append((rng.choice([0, 0, 0, 1, 1, 2, 3]), enc(v).encode("utf-8"), "structured"))
         for k in dist:
             chk.dist(k)
+    for _ in range(n_struct // 3):
+        t_, v = gen_valid_calls(rng)
+        cases.append((t_, enc(v).encode("utf-8"), "valid_calls"))
     for _ in range(n_json):
         cases.append((rng.choice([0, 1]), enc(gen_json(rng, 4)).encode("utf-8"), "json"))
     for _ in range(n_bytes):
@@ -734,6 +777,21 @@ def wrapper_stage(chk, jsonrpc):
         chk.count(1, nontrivial_key=data if nontrivial else None)
         if log:
             chk.dist("invocations>0")
+        for m_, a_ in log:
+            chk.dist("invoked:" + ("mounted_callable" if a_ is None else "helper_attribute" if a_ == "helper" else "attribute"))
+        if outcome[0] == "bytes":
+            try:
+                rs_ = parse_response(outcome[1])
+                for r_ in (rs_ if isinstance(rs_, list) else [rs_]):
+                    chk.dist("response:" + ("result" if "result" in r_ else str((r_.get("error") or {}).get("code"))))
+                    if "error" in r_ and isinstance(r_["error"].get("data"), dict):
+                        chk.dist("error_data_type:" + str(r_["error"]["data"].get("type")))
+            except (ValueError, AttributeError):
+                pass
+        if parsed_ok:
+            for j_ in (parsed if isinstance(parsed, list) else [parsed]):
+                if isinstance(j_, dict) and "params" in j_:
+                    chk.dist("params_models:" + model_param_status(j_.get("params")))
         if len(rows) % 400 == 0:
             chk.sample({"stream": stream, "table": tbl_idx, "request": case["text"][:200],
                         "response": outcome[1][:200].decode("utf-8", "replace") if outcome[0] == "bytes" else outcome[0],
